@@ -142,6 +142,23 @@ static std::string cast(ChaiScript &chai, int pid, const Boxed_Value &v) {
   return "bad-op";
 }
 
+// ---- bind: logging functions of 1..5 parameters, all int (ri<L>) or int / string alternating (rm<L>)
+static std::string iv(int v) { return "i" + std::to_string(v); }
+static std::string sv(const std::string &v) { return "s" + v; }
+static void note_rec(const std::string &x) { g_log += (g_log.empty() ? "" : " ") + std::string("rec(") + x + ")"; }
+static void reg_bind_api(ChaiScript &chai) {
+  chai.add(fun([](int a) { note_rec(iv(a)); }), "ri1");
+  chai.add(fun([](int a, int b) { note_rec(iv(a) + "," + iv(b)); }), "ri2");
+  chai.add(fun([](int a, int b, int c) { note_rec(iv(a) + "," + iv(b) + "," + iv(c)); }), "ri3");
+  chai.add(fun([](int a, int b, int c, int d) { note_rec(iv(a) + "," + iv(b) + "," + iv(c) + "," + iv(d)); }), "ri4");
+  chai.add(fun([](int a, int b, int c, int d, int e) { note_rec(iv(a) + "," + iv(b) + "," + iv(c) + "," + iv(d) + "," + iv(e)); }), "ri5");
+  chai.add(fun([](int a) { note_rec(iv(a)); }), "rm1");
+  chai.add(fun([](int a, const std::string &b) { note_rec(iv(a) + "," + sv(b)); }), "rm2");
+  chai.add(fun([](int a, const std::string &b, int c) { note_rec(iv(a) + "," + sv(b) + "," + iv(c)); }), "rm3");
+  chai.add(fun([](int a, const std::string &b, int c, const std::string &d) { note_rec(iv(a) + "," + sv(b) + "," + iv(c) + "," + sv(d)); }), "rm4");
+  chai.add(fun([](int a, const std::string &b, int c, const std::string &d, int e) { note_rec(iv(a) + "," + sv(b) + "," + iv(c) + "," + sv(d) + "," + iv(e)); }), "rm5");
+}
+
 int main() {
   std::string line;
   while (std::getline(std::cin, line)) {
@@ -189,6 +206,29 @@ int main() {
           out = "entered " + g_log;
         } catch (...) { out = errclass(); if (!g_log.empty()) out += " AFTER-ENTERING " + g_log; }
         out = "order=" + order + " " + out;
+      } else if (w.size() == 4 && w[0] == "bind") {
+        // bind <pattern over b/_> <number of call arguments> <mixed 0|1>
+        const std::string pat = w[1];
+        const int n = std::stoi(w[2]);
+        const bool mixed = w[3] == "1";
+        auto is_str = [&](size_t i) { return mixed && i % 2 == 1; };
+        std::vector<size_t> holes;
+        std::string src = std::string("bind(") + (mixed ? "rm" : "ri") + std::to_string(pat.size());
+        for (size_t i = 0; i < pat.size(); ++i) {
+          if (pat[i] == '_') { holes.push_back(i); src += ", _"; }
+          else src += is_str(i) ? ", \"b" + std::to_string(i) + "\"" : ", " + std::to_string(100 + i);
+        }
+        src += ")(";
+        for (int j = 0; j < n; ++j) {
+          const bool str = static_cast<size_t>(j) < holes.size() && is_str(holes[static_cast<size_t>(j)]);
+          src += (j ? ", " : "") + (str ? "\"a" + std::to_string(j) + "\"" : std::to_string(1 + j));
+        }
+        src += ")";
+        ChaiScript chai;
+        reg_bind_api(chai);
+        g_log.clear();
+        try { chai.eval(src); out = g_log.empty() ? "returned-without-entering" : "entered " + g_log; }
+        catch (...) { out = "error"; if (!g_log.empty()) out += " AFTER-ENTERING " + g_log; }
       }
     } catch (const std::exception &e) { out = std::string("HARNESS:") + vh::clean(e.what(), 80); }
     std::cout << out << "\n" << std::flush;
